@@ -152,6 +152,20 @@ class TokString(Token):
         super().__init__(*args, **kwargs)
 
     @property
+    def value(self):
+        """The string's value.
+
+        As in Lua, a line break that immediately follows the opening long
+        bracket is not part of the string.
+        """
+        if self._multiline_quote is not None:
+            if self._data[:2] in (b'\r\n', b'\n\r'):
+                return self._data[2:]
+            if self._data[:1] in (b'\n', b'\r'):
+                return self._data[1:]
+        return self._data
+
+    @property
     def code(self):
         if self._multiline_quote is not None:
             return (b'[' + self._multiline_quote + b'[' +
